@@ -55,6 +55,10 @@ POOL = {
 }
 
 
+# formaldehyde with a hydrogen molecule 3.2 A away (two fragments: their dispersion energy changes along a trajectory)
+POOL["h2co_h2"] = ([8, 6, 1, 1, 1, 1], [[0.0, 0.0, 1.2050], [0.0, 0.0, 0.0], [0.9429, 0.0, -0.5876], [-0.9429, 0.0, -0.5876], [0.1, 3.2, 0.1], [0.1, 3.94, 0.2]])
+
+
 def same_shape_batch(batch, rng):
     """Another batch with the same atom count in every slot but other elements (driver-reuse strata)."""
     by_size = {}
@@ -135,6 +139,8 @@ def seqm_parameters(cfg):
         sp["_stub"] = dict(cfg.get("stub", {}))
     if cfg.get("uhf"):
         sp["UHF"] = True
+    if cfg.get("dispersion"):
+        sp["dispersion"] = True  # AM1-FS1 pairwise dispersion correction (AM1 only)
     eng = cfg["engine"]
     if eng in EXC_ENGINES:
         sp["excited_states"] = {"n_states": cfg.get("n_states", 3), "method": "cis"}
